@@ -350,11 +350,12 @@ def check(run):
     for i, tr in enumerate(replay(run, catalog, os.path.join(d2, "out"), n2, "g2")):
         ok = validate(run, stats, tr, "g2_%d" % i, kf_known) and ok
     run.cov["schedules_two_requests_exhaustive"] = n2
-    # ... and every schedule of the scenario two sharers + one writer of a key (3 requests)
+    # ... and every schedule of selected scenarios of three requests (two sharers + a writer of a key, write skew,
+    # same output three times, child + play, three selectors)
     if ok:
-        d3x = gen_bfs(run, "Gen_SpinLock_cat.cfg", consts, "gen3x")
+        d3x = gen_bfs(run, "Gen_SpinLock_3.cfg", consts, "gen3x")
         n3x = len(os.listdir(os.path.join(d3x, "out")))
-        run.cov["schedules_two_sharers_one_writer_exhaustive"] = n3x
+        run.cov["schedules_three_requests_selected_exhaustive"] = n3x
         for i, tr in enumerate(replay(run, catalog, os.path.join(d3x, "out"), n3x, "g3x")):
             ok = validate(run, stats, tr, "g3x_%d" % i, kf_known) and ok
 
@@ -387,7 +388,7 @@ def check(run):
 
     # (3) conformance, sampled part: schedules of 3-4 requests by simulation
     if ok:
-        nsim = 12000 if thorough else 1500
+        nsim = 20000 if thorough else 1500
         run.tlc_gen("Gen_SpinLock", "Gen_SpinLock_sim.cfg", nsim, 140, name="gen3", consts=consts,
                     timeout=900)
         d3 = os.path.join(run.work, "gen3", "out")
@@ -447,7 +448,7 @@ def check(run):
         raise vp.Undecided("%d gated runs did not follow the schedule / the step model's prediction: the step model of "
                            "spec/SpinLock.tla no longer describes the code (binding lost), no verdict" % len(stats.inexact))
     run.finish(require={
-        "schedules_replayed": (stats.gated, 1500 if not thorough else 10000),
+        "schedules_replayed": (stats.gated, 3000 if not thorough else 15000),
         "schedules_with_overlapping_critical_windows": (stats.overlap, 50),
         "conflicting_pairs_exactly_one_admitted": (stats.conflict_one, 50),
         "read_read_pairs_both_admitted": (stats.read_read, 20),
